@@ -245,7 +245,10 @@ def evaluate__function_reference(self: XPathToken, context: ta.ContextType = Non
 
         assert isinstance(name, str)
         assert isinstance(namespace, str) or namespace is None
-        qname = QName(namespace, name)
+        try:
+            qname = QName(namespace, name)
+        except ValueError as err:
+            raise self.error('XPST0003', err) from None  # e.g. a wildcard as in *:abs#1
         namespace = qname.namespace
         local_name = qname.local_name
 
